@@ -56,6 +56,8 @@ def _case(draw, forms=("ket1d", "ketcol", "dm"), families=("generic", "mixed", "
         "counts": draw(gen.dyadic_probs(n, m=6, allow_zero=False)) if pk == "dyadic" else None,
         "party": draw(st.integers(0, 1)),
         "useed": draw(gen.SEED),
+        # first state stored as a real array, the others complex (seeded change C12-s2 keys on the first state's dtype)
+        "real_first": fam in ("generic", "mixed") and draw(st.integers(0, 3)) == 0,
     }
 
 
@@ -114,6 +116,8 @@ def _product_measurement_value(case, dms, p):
 
 
 def _nt(case):
+    if case.get("real_first") and case["cplx"]:
+        return "mixed-dtype-ensemble"
     if case["cplx"] and case["probs"] == "dyadic":
         return "complex,nonuniform"
     if case["family"] == "bell":
